@@ -315,6 +315,215 @@ def _wire_case(draw):
 
 
 # --------------------------------------------------------------------------------------
+# (b') a Group OSCORE member with several senders: one replay window per security context (per sender)
+
+_GROUP = {}
+GROUP_WINDOW = 32  # SimpleGroupContext builds ReplayWindow(32, ...) per peer
+GROUP_IDS = [b"", b"\x01", b"\x02", b"\x0a\x0b"]  # receiver first
+
+
+def _group_material():
+    """key material once per process (deterministic: private keys are hashes of the member index)"""
+    if _GROUP:
+        return _GROUP
+    import hashlib
+
+    oscore = E.setup()
+
+    class Det(oscore.Ed25519):
+        seed = b""
+
+        def _generate(self):
+            return hashlib.sha256(b"c12-group-member-" + self.seed).digest()
+
+    det = Det()
+    mat = []
+    for i in range(len(GROUP_IDS)):
+        det.seed = b"%d" % i
+        mat.append(det.generate_with_ccs())
+    _GROUP.update(mat=mat, sig=oscore.Ed25519(), pka=oscore.EcdhSsHkdf256())
+    return _GROUP
+
+
+def make_group_member(i, n):
+    oscore = E.setup()
+    g = _group_material()
+    alg = oscore.algorithms[oscore.DEFAULT_ALGORITHM]
+    return oscore.SimpleGroupContext(
+        alg,
+        oscore.hashfunctions[oscore.DEFAULT_HASHFUNCTION],
+        g["sig"],
+        alg,
+        g["pka"],
+        b"G",
+        b"0123456789abcdef",
+        b"salt",
+        GROUP_IDS[i],
+        g["mat"][i][0],
+        g["mat"][i][1],
+        {GROUP_IDS[j]: g["mat"][j][1] for j in range(n) if j != i},
+        b"dummy gm credential",
+        group_manager_cred_fmt="dummy",
+    )
+
+
+def deliver_group(server, data):
+    """-> ("accepted", payload, kid of the context that took it) | ("rejected", exc).  Whatever a group aspect raises
+    counts as a failed unprotection (the statement says "fails", not how)."""
+    from aiocoap import Message
+    from aiocoap.message import Direction
+
+    try:
+        m = Message.decode(data)
+        m.direction = Direction.INCOMING
+        _, _, unprotected, _ = server._extract_encrypted0(m)
+        ctx = server.get_oscore_context_for(unprotected)
+        if ctx is None:
+            return ("rejected", "no context")
+        inner, rid = ctx.unprotect(m)
+        return ("accepted", bytes(inner.payload), ctx.recipient_id)
+    except Exception as e:
+        return ("rejected", e)
+
+
+def run_group(c):
+    vio = []
+    labels = set()
+    nsend = c["senders"]
+    n = nsend + 1
+
+    def run(with_forgeries):
+        server = make_group_member(0, n)
+        senders = [make_group_member(i, n) for i in range(1, n)]
+        msgs = []  # (sender index, sequence number, wire bytes, mode)
+        for k, (si, gap, mode) in enumerate(c["sent"]):
+            si %= nsend
+            snd = senders[si]
+            snd.sender_sequence_number += gap
+            seq = snd.sender_sequence_number
+            ctx = snd if mode == "group" else snd.pairwise_for(GROUP_IDS[0])
+            import aiocoap
+
+            req = aiocoap.Message(code=aiocoap.GET, payload=b"req-%d" % k)
+            req.opt.uri_path = ("r", str(k))
+            outer, _ = ctx.protect(req)
+            _, data = E.over_the_wire(outer, mid=k)
+            msgs.append((si, seq, data, mode))
+        accepted = [set() for _ in range(nsend)]
+        outcomes = []
+        for ev in c["arrivals"]:
+            k = ev[1] % len(msgs)
+            si, seq, data, mode = msgs[k]
+            if ev[0] == "auth":
+                res = deliver_group(server, data)
+                outcomes.append((k, res[0]))
+                acc = accepted[si]
+                if res[0] == "accepted":
+                    if res[1] != b"req-%d" % k:
+                        vio.append(V("C12/group/wrong-plaintext", repr(res[1])))
+                    if res[2] != GROUP_IDS[si + 1]:
+                        vio.append(V("C12/group/accepted-under-another-senders-context", "message of %r taken by the context with %r" % (GROUP_IDS[si + 1], res[2])))
+                    if seq in acc:
+                        vio.append(V("C12/group/sequence-number-accepted-twice", "sender %d seq %d (%s mode); accepted from it so far %r" % (si, seq, mode, sorted(acc)[-8:])))
+                    elif acc and seq < max(acc) - GROUP_WINDOW + 1:
+                        vio.append(V("C12/group/number-below-window-accepted", "sender %d seq %d, max %d" % (si, seq, max(acc))))
+                    acc.add(seq)
+                    labels.add("accepted-" + mode)
+                else:
+                    labels.add("rejected:" + (type(res[1]).__name__ if isinstance(res[1], Exception) else "no-context"))
+                    if (not acc or seq > max(acc)) and seq not in acc:
+                        others = {j: sorted(a)[-4:] for j, a in enumerate(accepted) if j != si}
+                        vio.append(
+                            V(
+                                "C12/group/authentic-number-above-everything-seen-rejected",
+                                "sender %d seq %d (%s mode) rejected (%r); accepted from this sender so far %r, from the other senders %r%s"
+                                % (si, seq, mode, res[1], sorted(acc)[-8:], others, "; forgeries were delivered before" if with_forgeries else ""),
+                            )
+                        )
+            elif with_forgeries:
+                kind, arg = ev[0], ev[2]
+                f = R.decode(data)
+                opt = dict(f["options"])[9]
+                if kind == "flip":
+                    b = bytearray(f["payload"])
+                    b[arg % len(b)] ^= 1 << (arg % 8)
+                    forged = R.encode(dict(f, payload=bytes(b)))
+                else:
+                    # the OSCORE option of a group request: flags | PIV | s | kid context | kid
+                    pivlen = opt[0] & 7
+                    rest = opt[1 + pivlen :]
+                    if kind == "kid":  # the same ciphertext under another member's key ID (a sender, or the receiver itself)
+                        ctxlen = rest[0]
+                        other = GROUP_IDS[(si + 1 + 1 + arg % max(nsend - 1, 1)) % n] if nsend > 1 else GROUP_IDS[0]
+                        if other == GROUP_IDS[si + 1]:
+                            continue
+                        newopt = opt[: 1 + pivlen] + rest[: 1 + ctxlen] + other
+                    else:  # "piv": old ciphertext under a still unused, higher number
+                        newn = max(m_[1] for m_ in msgs if m_[0] == si) + 1 + arg % 5
+                        newpiv = newn.to_bytes(5, "big").lstrip(b"\0") or b"\0"
+                        newopt = bytes([(opt[0] & 0xF8) | len(newpiv)]) + newpiv + rest
+                    if newopt == opt:
+                        continue
+                    forged = R.encode(dict(f, options=sorted([(n_, r_) for n_, r_ in f["options"] if n_ != 9] + [(9, newopt)], key=lambda o: o[0])))
+                res = deliver_group(server, forged)
+                labels.add("forgery-" + kind)
+                if res[0] == "accepted":
+                    vio.append(V("C12/group/forgery-accepted/" + kind, "forged copy of message %d (sender %d, %s mode)" % (k, si, mode)))
+        return outcomes
+
+    plain = run(False)
+    if any(e[0] != "auth" for e in c["arrivals"]):
+        forged = run(True)
+        if plain != forged and not vio:
+            diff = next((i for i, (a_, b_) in enumerate(zip(plain, forged)) if a_ != b_), None)
+            vio.append(V("C12/group/forgery-changes-fate-of-authentic-messages", "authentic arrival #%s: %r without forgeries, %r with" % (diff, plain[diff] if diff is not None else None, forged[diff] if diff is not None else None)))
+    auth = [e[1] % len(c["sent"]) for e in c["arrivals"] if e[0] == "auth"]
+    used = {c["sent"][k][0] % nsend for k in auth}
+    seqs_by = {}
+    tot = [0] * nsend
+    for k, (si, gap, mode) in enumerate(c["sent"]):
+        si %= nsend
+        tot[si] += gap
+        seqs_by.setdefault(si, {})[k] = tot[si]
+        tot[si] += 1
+    overlap = len(used) >= 2 and len({seqs_by[c["sent"][k][0] % nsend][k] for k in auth}) < len(set(auth))
+    ranges = {}
+    for k in auth:
+        si = c["sent"][k][0] % nsend
+        q = seqs_by[si][k]
+        lo, hi = ranges.get(si, (q, q))
+        ranges[si] = (min(lo, q), max(hi, q))
+    rl = sorted(ranges.values())
+    interfering = any(b_[0] <= a_[1] + GROUP_WINDOW for a_, b_ in zip(rl, rl[1:]))
+    labels.add("senders=%d" % nsend)
+    if overlap:
+        labels.add("same-number-from-two-senders")
+    if interfering:
+        labels.add("number-ranges-of-two-senders-within-one-window")
+    return Outcome(vio, sorted(labels), interfering)
+
+
+@st.composite
+def _group_case(draw):
+    nsend = draw(st.sampled_from([1, 2, 2, 3]))
+    n = draw(st.integers(2 * nsend, 30))
+    sent = [[k % nsend if draw(st.booleans()) else draw(st.integers(0, nsend - 1)), draw(st.sampled_from([0, 0, 0, 0, 1, 2, 31, 40, 100])), draw(st.sampled_from(["group", "group", "pairwise"]))] for k in range(n)]
+    arrivals = draw(
+        st.lists(
+            st.one_of(
+                st.tuples(st.just("auth"), st.integers(0, n - 1)).map(list),
+                st.tuples(st.just("auth"), st.integers(0, n - 1)).map(list),
+                st.tuples(st.just("auth"), st.integers(0, n - 1)).map(list),
+                st.tuples(st.sampled_from(["flip", "kid", "piv"]), st.integers(0, n - 1), st.integers(0, 1000)).map(list),
+            ),
+            min_size=2 * nsend,
+            max_size=90,
+        )
+    )
+    return {"senders": nsend, "sent": sent, "arrivals": arrivals}
+
+
+# --------------------------------------------------------------------------------------
 # (c) uninitialised window and Echo recovery
 
 
@@ -467,8 +676,12 @@ RULE = (
     "interleaved with forgeries (bit-flipped copies, old ciphertext under another or a still unused higher partial IV): an authentic number is accepted at most once, never once it fell below the window, always "
     "when above everything accepted; forgeries are never accepted; and the accept/reject sequence of the authentic arrivals is identical with and without the forgeries (metamorphic). echo: a receiver whose window is "
     "uninitialised (Echo recovery value generated) sees plain requests, requests echoing the challenge, requests with a wrong Echo value, replays of captured requests and clean restarts of the receiving process (window through persist()/JSON/initialize_from_persisted(), new Echo value; an uninitialised window must stay uninitialised, an initialised one keeps rejecting what it accepted): nothing is accepted before a request carries "
-    "the freshly issued value, the 4.01 challenge decrypts at the client and carries it, and afterwards captured requests stay rejected, as does a replay of the Echo-carrying request itself and of everything accepted since. Non-trivial = a jump or >= 2 in-window probes (window); reordered or repeated "
-    "arrivals (wire); recovery followed by a replay of a captured request (echo). Distinct = SHA-1 of the case."
+    "the freshly issued value, the 4.01 challenge decrypts at the client and carries it, and afterwards captured requests stay rejected, as does a replay of the Echo-carrying request itself and of everything accepted since. "
+    "group: a Group OSCORE member (SimpleGroupContext, window 32 per peer) receives up to 30 requests of 1-3 other members, each in group mode (countersigned) or pairwise mode, sequence gaps 0,1,2,31,40,100 per sender, "
+    "in a generated order with repeats (up to 90 arrivals), interleaved with forgeries (bit flips, the ciphertext under another member's key ID, an old ciphertext under an unused higher partial IV): the three clauses are "
+    "checked per sender (each sender is one security context with its own number space, shared by its group-mode and pairwise-mode requests), a message is only ever taken by the context of its sender, forgeries are never accepted and do not change the fate of the authentic arrivals. "
+    "Non-trivial = a jump or >= 2 in-window probes (window); reordered or repeated "
+    "arrivals (wire); authentic arrivals from at least two senders whose number ranges come within one window size of each other (group); recovery followed by a replay of a captured request (echo). Distinct = SHA-1 of the case."
 )
 
 
@@ -478,11 +691,13 @@ def build(tier):
         [
             Sub("window", run_window, strategy=_window_case, budget={"quick": 4000, "thorough": 500000}, max_wall={"quick": 50, "thorough": 3600}),
             Sub("wire", run_wire, strategy=_wire_case, budget={"quick": 800, "thorough": 100000}, max_wall={"quick": 55, "thorough": 3600}),
+            Sub("group", run_group, strategy=_group_case, budget={"quick": 500, "thorough": 60000}, max_wall={"quick": 50, "thorough": 3600}),
             Sub("echo", run_echo, strategy=_echo_case, budget={"quick": 1000, "thorough": 100000}, max_wall={"quick": 50, "thorough": 3600}),
         ],
         RULE,
         assumptions=[
             "CPython 3.11 + system cryptography + cbor2/filelock shims (validated against the RFC 8613 vectors)",
+            "group: Ed25519 to X25519 public key conversion through pure-Python ge25519/fe25519 stand-ins in shims/ (validated in every case: a pairwise-mode request only decrypts if both sides derive the same shared secret); whatever exception a group aspect raises counts as a failed unprotection",
             "acceptance of unseen numbers *inside* the window is not demanded by the statement; it is exercised but only the three stated clauses are asserted",
         ],
         selftest=selftest,
